@@ -89,6 +89,10 @@ def values_for(rng, name, shape, spread):
         yy, xx = np.mgrid[0:shape[0], 0:shape[1]]
         base += ((yy - cy) ** 2 + (xx - cx) ** 2 <= 9) * rng.uniform(20, 200)
     base = base / base.max()
+    if spread == "ramp":       # a background that rises across the frame: every window has another minimum
+        yy, xx = np.mgrid[0:shape[0], 0:shape[1]]
+        base = 0.4 * base + 0.6 * (yy + 2 * xx) / (shape[0] + 2 * shape[1])
+        lo, hi = max(lo, 0), min(hi, 30000)
     vals = np.floor(lo + base * (hi - lo))
     vals.flat[0], vals.flat[-1] = lo, hi
     return vals
@@ -143,6 +147,11 @@ def run_case(kind, p):
                         break
                 else:
                     tol = 2e-4 * np.maximum(1.0, np.abs(b)) if onm != "refineds" else 2e-3
+                    if onm == "elevations":
+                        # (height - value) / distance with distance >= 1.5: one float32 ulp of the height in each of the two
+                        # terms is float32 rounding, whatever the size of the slope itself
+                        hmag = np.maximum(1.0, np.abs(np.asarray(ref[2][0], dtype=np.float64)))
+                        tol = tol + 2 * np.spacing(hmag.astype(np.float32)).astype(np.float64) / 1.5
                     clear = np.asarray(ref[3][0]) > 1e-3
                     # entries whose centre moved to a tied neighbour are compared by the tie rule above only
                     moved = np.any(np.asarray(got[0][0]) != np.asarray(ref[0][0]), axis=1)
@@ -169,6 +178,19 @@ def search(ctx, boost=1, focus=()):
                 ctx.oracle_case("dtype", p, run_case("dtype", p),
                                 nontrivial=(np.dtype(name).kind in "iu" and spread != "narrow"))
                 ctx.count("oracle_" + name)
+        # many peaks with a large pattern on a rising background: more crops than one block of float64 buffers holds
+        # (the number of blocks depends on the buffer dtype, which follows the frame dtype)
+        for name in (("uint16", "float32", "int8", "uint32") if ctx.tier == "thorough" else ("uint16", "float32")):
+            r_ = float(rng.integers(12, 17))
+            pat = {"kind": "circular", "radius": r_, "search": 2 * r_}
+            c = int(np.ceil(pat["search"]))
+            shape = [2 * c + int(rng.integers(20, 60)), 2 * c + int(rng.integers(20, 60))]
+            npk = 2 ** 19 // ((2 * c) ** 2 * 8) + int(rng.integers(2, 8))
+            peaks = np.stack([rng.integers(c, shape[0] - c, npk), rng.integers(c, shape[1] - c, npk)], axis=1)
+            p = {"seed": int(rng.integers(1 << 30)), "dtype": name, "spread": "ramp", "pattern": pat, "shape": shape,
+                 "peaks": peaks.tolist()}
+            ctx.oracle_case("dtype", p, run_case("dtype", p), nontrivial=True)
+            ctx.count("oracle_many_peaks")
 
 
 def extra_coverage(ctx):
